@@ -85,6 +85,11 @@ def mutate(r, g, insts, per_class=2):
                             cls = "select_outside_list"
                         cands.append((cls, "%s.%s (%s%s) := %s" % (owner, an, kind, " optional" if opt else "", bad), with_toks(toks[:a] + [bad] + toks[b:]), iid, False))
                     cands.append(("star_not_derived", "%s.%s (%s) := *" % (owner, an, kind), with_toks(toks[:a] + ["*"] + toks[b:]), iid, False))
+                    # characters that belong to no token between a good value and its delimiter
+                    if toks[a:b] not in (["$"], ["*"]):
+                        gk = kind + ("_ref" if kind == "KSelect" and toks[a].startswith("#") else "")
+                        cands.append(("garbage_after_value", "%s.%s (%s%s) := <value> @@" % (owner, an, gk, " optional" if opt else ""),
+                                      with_toks(toks[:b] + [" @@"] + toks[b:]), iid, False))
                     # one element of an aggregate of simple values replaced by a literal of the wrong kind: first, middle, last
                     if kind == "KAggregate" and toks[a] == "(" and toks[b - 1] == ")" and not isinstance(at[1], tuple) or \
                             (kind == "KAggregate" and toks[a] == "(" and toks[b - 1] == ")" and isinstance(at[1], tuple) and at[1][0] == "enum"):
@@ -193,7 +198,7 @@ def mutate(r, g, insts, per_class=2):
         key = c[0]
         if c[0] in ("unterminated_instance", "unterminated_after_null", "missing_close_paren"):
             key = c[0] + " " + c[1]
-        if " := " in c[1] and c[0] in ("wrong_kind", "wrong_kind_element", "undeclared_enum_item", "dangling_reference", "select_outside_list"):
+        if " := " in c[1] and c[0] in ("wrong_kind", "wrong_kind_element", "undeclared_enum_item", "dangling_reference", "select_outside_list", "garbage_after_value"):
             key = c[0] + " " + c[1].split(" (", 1)[1]        # "<kind>) := <bad value>", optional and required apart
         if c[0] in ("too_few_params", "too_many_params") and c[1].split(":")[0] in ("DCARRIER", "LCARRIER", "SI_B", "DPOINT"):
             key = c[0] + " " + c[1].split(":")[0]                # classes with redefining or derived attributes: own path through the attribute loop
